@@ -52,6 +52,7 @@ type c11Exec struct {
 	deadline  time.Duration
 	cancelAt  int // >0: cancel() is called inside the N-th tick
 	tickD     time.Duration
+	farDeadline bool // cancel plans: the context also has a deadline, an hour away
 	longLived bool // run under the long-lived parent context (terminating scripts only)
 }
 
@@ -69,6 +70,7 @@ func runC11(c *sim.Ctx, t *testing.T) {
 		if c.Chance(1, 3, "cancel") {
 			p.cancelAt = 1 + c.Intn(12, "cancelat")
 			p.deadline = time.Hour
+			p.farDeadline = c.Bool("fardeadline")
 		}
 		if !c11Scripts[p.script].endless && p.cancelAt == 0 && c.Bool("longlived") {
 			p.longLived = true
@@ -110,6 +112,9 @@ func runC11(c *sim.Ctx, t *testing.T) {
 				if p.longLived {
 					// a host's long-lived service context: nobody cancels it after the call
 					ctx, cancel = root, func() {}
+				} else if p.cancelAt > 0 && p.farDeadline {
+					// cancelled long before its (still comfortably distant) deadline
+					ctx, cancel = context.WithTimeout(root, time.Hour)
 				} else if p.cancelAt > 0 {
 					// cancelled from outside, no deadline anywhere (e.g. a shutdown)
 					ctx, cancel = context.WithCancel(root)
